@@ -250,7 +250,7 @@ class GraphvizMonitor(Monitor):
 
 def setup(concepts, spec):
     attach.attach_ctor(concepts)
-    attach.attach(concepts.lattices.VisualizableMixin, 'graphviz', GraphvizMonitor(CAP[spec['tier']]))
+    attach.attach(concepts.lattices.Lattice, 'graphviz', GraphvizMonitor(CAP[spec['tier']]))
     global POOL
     POOL = common.Pool(5)
 
